@@ -75,6 +75,9 @@ def model_checks(driver, cs, model):
                 # whose formula value is 0 (empty range ending at 0) is refused although the product is 0
                 zero_product_refusals.append(sx)
                 continue
+            if cls == 'cyclic-zero-size':
+                # finding F25 is the code's behaviour, which the model transcribes: not a defect of the 32-bit instance
+                continue
             out.append({'what': 'model max_size_at 32 violates the oracle on %s: %s (%s)' % (sx, text, r32), 'container': sx})
     return out, {'model_unbounded_ok': n_unb_ok, 'model_usize32_classes': dict(c32),
                  'model_usize32_overflow_below_bound': {'count': len(zero_product_refusals), 'examples': zero_product_refusals[:3]}, 'model_only_evaluations': 2 * len(cs)}
